@@ -60,8 +60,8 @@ def replay_transition(tr):
     def on_alarm(signum, frame):
         raise CT.Budget("no return")
 
-    old = signal.signal(signal.SIGALRM, on_alarm)
-    signal.setitimer(signal.ITIMER_REAL, 60)
+    old = signal.signal(signal.SIGPROF, on_alarm)
+    signal.setitimer(signal.ITIMER_PROF, 60)
     try:
         if op == "new":
             objs[a[0]] = advtree.Div()
@@ -86,8 +86,8 @@ def replay_transition(tr):
     except (Exception, CT.Budget) as e:                              # noqa: BLE001
         return "the model enables %s%r but the real call raised %s: %s" % (op, a, type(e).__name__, str(e)[:200])
     finally:
-        signal.setitimer(signal.ITIMER_REAL, 0)
-        signal.signal(signal.SIGALRM, old)
+        signal.setitimer(signal.ITIMER_PROF, 0)
+        signal.signal(signal.SIGPROF, old)
     ident = {id(o): i for i, o in objs.items()}
     if set(objs) != set(post["alloc"]):
         return "allocated %r, model %r" % (sorted(objs), post["alloc"])
